@@ -154,6 +154,8 @@ fn zip_entry<W: Write + Seek>(
 /// Zip up each language and braille dir
 /// Note: regional variations (including zh-cn and zh-tw) are zipped together into one zip file
 fn main() {
+    // verification hooks are guarded by `--cfg mathcat_verif`; declare the cfg so that builds with the guard off don't warn
+    println!("cargo::rustc-check-cfg=cfg(mathcat_verif)");
     // This doesn't work because the build claims OUT_DIR is not defined(?)
     // let archive = PathBuf::from(concat!(env!("OUT_DIR"),"/rules.zip"));
 
